@@ -53,6 +53,9 @@ def classify(spec):
     return "complete" if (c["mixed_vanish"] and c["pp_vanish"]) else "mixed"
 
 
+MAX_REF_EVALS = 200000
+
+
 def integrate(spec, theta, ts, rtol=1e-12, atol=1e-14):
     """(X, S, F, Fi) at the times ts:  X[n,nS], S[n,nS,nP], F[n,nS,nP,nP], Fi[n,nS,nP,nP]"""
     from scipy.integrate import solve_ivp
@@ -61,7 +64,14 @@ def integrate(spec, theta, ts, rtol=1e-12, atol=1e-14):
     nF = nS * nP * nP
     theta = np.asarray(theta, dtype=float)
 
+    count = [0]
+
     def rhs(t, u):
+        # a generated model may blow up in finite time: the step size then shrinks for ever.  No solution over the window = not
+        # an input of the property (callers treat the RuntimeError as "no reference")
+        count[0] += 1
+        if count[0] > MAX_REF_EVALS:
+            raise RuntimeError("reference integration failed: more than %d evaluations of the right-hand side" % MAX_REF_EVALS)
         x = u[:nS]
         S = u[nS:nS + nS * nP].reshape(nS, nP)
         F = u[nS + nS * nP:nS + nS * nP + nF].reshape(nS, nP, nP)
